@@ -386,7 +386,9 @@ class ExprMixin:
             return SSeq(len(items), lambda i, items=items: _index_concrete(items, i), kind)
         if gen.ifs:
             if kind == "gen":
-                return FilteredGen(self, node, gen, env, src, path)
+                fg = FilteredGen(self, node, gen, env, src, path)
+                fg.src_host = src_v          # the host value iterated over (before conversion to a sequence)
+                return fg
             raise Unsupported("filtered comprehension over a symbolic-length source")
         if src.elem_raises is not None:
             self.materialise_raises(src, path)
